@@ -1,4 +1,4 @@
-"""The assembler on every target of the property (C12 / C13): X64 ELF in Intel syntax, X64 PE, IA32 PE (AT&T and Intel), AArch64 ELF,
+"""The assembler on every target of the property (C12 / C13): X64 ELF in Intel syntax, X64 PE, IA32 PE (AT&T and Intel), IA32 ELF, AArch64 ELF,
 MIPS32 ELF.  Texts are generated from per-target vocabularies together with what each line means (kind, size, mnemonic, operand
 position, attributes, addend), so that the oracle reads the property's text against the result without parsing assembly.  The events
 the streamer receives are logged in the model's vocabulary (as in harness/asmgen.py, extended by the target-specific expression
@@ -29,7 +29,20 @@ VOCAB = {
         T("lea rax, [rip+{t}]", "ref", 7, "lea", 3, 4), T("mov eax, dword ptr [rip+{t}+4]", "ref", 6, "mov", 2, 4, addend=4),
         T("mov rax, qword ptr [rip+{t}@GOTPCREL]", "ref", 7, "mov", 3, 4, attrs=("GOT", "PCREL")), T("mov dword ptr [rip+{t}], 1", "ref", 10, "mov", 2, 4),
         T("call qword ptr [rip+{t}@GOTPCREL]", "icall", 6, "call", 2, 4, attrs=("GOT", "PCREL")),
-        T("call qword ptr [rip+{t}]", "icall", 6, "call", 2, 4), T("jmp qword ptr [rip+{t}]", "ijmp", 6, "jmp", 2, 4)],
+        T("call qword ptr [rip+{t}]", "icall", 6, "call", 2, 4), T("jmp qword ptr [rip+{t}]", "ijmp", 6, "jmp", 2, 4),
+        # every relocation suffix the assembler maps to attributes on ELF: the attribute(s) the suffix names
+        T("call {t}@PLT", "call", 5, "call", 1, 4, attrs=("PLT",)),
+        T("mov rax, qword ptr [rip+{t}@GOTTPOFF]", "ref", 7, "mov", 3, 4, attrs=("GOT", "TPOFF")), T("lea rdi, [rip+{t}@TLSGD]", "ref", 7, "lea", 3, 4, attrs=("TLSGD",)),
+        T("lea rax, [rax+{t}@DTPOFF]", "ref", 7, "lea", 3, 4, attrs=("DTPOFF",)), T("mov rax, qword ptr fs:[{t}@TPOFF]", "ref", 9, "mov", 5, 4, attrs=("TPOFF",)),
+        T("lea rax, [rax+{t}@NTPOFF]", "ref", 7, "lea", 3, 4, attrs=("NTPOFF",)), T("mov rax, qword ptr [rax+{t}@GOT]", "ref", 7, "mov", 3, 4, attrs=("GOT",))],
+    # IA32 ELF (AT&T): the GOT- and TLS-relative operands of position-independent 32-bit code
+    "ia32elf": X86_FLOW + X86_DATA[:6] + [
+        T(".long {t}", "dsym", 4, opoff=0, opsize=4), T("jmp *%eax", "ijmp", 2, "jmp"), T("call *%eax", "icall", 2, "call"),
+        T("mov {t}+4, %eax", "ref", 5, "mov", 1, 4, addend=4), T("call {t}@PLT", "call", 5, "call", 1, 4, attrs=("PLT",)),
+        T("movl {t}@GOT(%ebx), %eax", "ref", 6, "mov", 2, 4, attrs=("GOT",)), T("movl {t}@GOTNTPOFF(%ebx), %eax", "ref", 6, "mov", 2, 4, attrs=("GOT", "NTPOFF")),
+        T("movl {t}@GOTTPOFF(%ebx), %eax", "ref", 6, "mov", 2, 4, attrs=("GOT", "TPOFF")), T("leal {t}@NTPOFF(%eax), %edx", "ref", 6, "lea", 2, 4, attrs=("NTPOFF",)),
+        T("leal {t}@TLSGD(,%ebx,1), %eax", "ref", 7, "lea", 3, 4, attrs=("TLSGD",)), T("leal {t}@DTPOFF(%eax), %edx", "ref", 6, "lea", 2, 4, attrs=("DTPOFF",)),
+        T("movl {t}@TPOFF(%eax), %edx", "ref", 6, "mov", 2, 4, attrs=("TPOFF",)), T("movl %gs:{t}@NTPOFF, %eax", "ref", 6, "mov", 2, 4, attrs=("NTPOFF",))],
     "x64pe": X86_FLOW + X86_DATA + [
         T("jmp *%rax", "ijmp", 2, "jmp"), T("call *%rax", "icall", 2, "call"),
         T("lea {t}(%rip), %rax", "ref", 7, "lea", 3, 4), T("mov {t}+4(%rip), %eax", "ref", 6, "mov", 2, 4, addend=4), T("movl $1, {t}(%rip)", "ref", 10, "mov", 2, 4)],
@@ -64,11 +77,18 @@ VOCAB = {
              T(".word 7", "data", 4), T(".word {t}", "dsym", 4, opoff=0, opsize=4), T(".4byte {t}+8", "dsym", 4, opoff=0, opsize=4, addend=8),
              T('.ascii "abcd"', "data", 4)],
 }
+# IA32 PE with both syntaxes in one text: every assemble() call takes the syntax as an argument, so a text whose lines change syntax is
+# handed over in one call per run of lines of one syntax (the current section is restated where the syntax changes, as a later call
+# would otherwise begin in .text: C13's finding)
+VOCAB["ia32mix"] = [dict(v, intel=False) for v in VOCAB["ia32"]] + [dict(v, intel=True) for v in VOCAB["ia32i"]]
 TARGETS = {
     "x64i": dict(isa="X64", fmt="ELF", intel=True, x86=True, labels=["foo", "bar", ".Ltmp", ".Lx"]),
     "x64pe": dict(isa="X64", fmt="PE", intel=False, x86=True, labels=["foo", "bar", ".Ltmp", ".Lx"]),
     "ia32": dict(isa="IA32", fmt="PE", intel=False, x86=True, labels=["foo", "bar", "Ltmp", "Lx"]),
     "ia32i": dict(isa="IA32", fmt="PE", intel=True, x86=True, labels=["foo", "bar", "Ltmp", "Lx"]),
+    # (the library has no ABI for IA32 ELF: the assembler takes the target, a RewritingContext does not)
+    "ia32elf": dict(isa="IA32", fmt="ELF", intel=False, x86=True, labels=["foo", "bar", ".Ltmp", ".Lx"], abi=False),
+    "ia32mix": dict(isa="IA32", fmt="PE", intel=None, x86=True, labels=["foo", "bar", "Ltmp", "Lx"]),
     "arm64": dict(isa="ARM64", fmt="ELF", intel=False, x86=False, labels=["foo", "bar", ".Ltmp", ".Lx"]),
     "mips": dict(isa="MIPS32", fmt="ELF", intel=False, x86=False, labels=["foo", "bar", "$Ltmp", "$Lx"]),
 }
@@ -117,7 +137,45 @@ def gen_items(rnd, target, allow_undef):
             items.append(dict(line=line, kind="sect", name=name, size=0))
     for l in pending:
         items.insert(rnd.randint(0, len(items)), dict(line=f"{l}:", kind="label", name=l, size=0))
+    if tg["intel"] is None:
+        # restate the current section in front of the first line of another syntax
+        out, cur_syntax, cur_sect = [], None, dict(line=".text", kind="sect", name=".text", size=0)
+        for it in items:
+            if it["kind"] == "sect":
+                cur_sect = it
+            syn = it.get("intel")
+            if syn is not None:
+                if cur_syntax is not None and syn != cur_syntax:
+                    out.append(dict(cur_sect, restated=True))
+                cur_syntax = syn
+            out.append(it)
+        items = out
     return items
+
+
+def calls_of(tg, items, cut):
+    """[(items of one assemble() call, Intel syntax?)]: the whole text, or the two parts of a cut; for a text of mixed syntax one call per
+    run of lines of one syntax (a restated section opens the run it was written for)"""
+    parts = [items] if not cut else [items[:cut], items[cut:]]
+    if tg["intel"] is not None:
+        return [(p, tg["intel"]) for p in parts]
+    out = []
+    for p in parts:
+        run, cur = [], None
+        for it in p:
+            syn = it.get("intel")
+            if it.get("restated") and run:
+                out.append((run, bool(cur)))
+                run, cur = [], None
+            elif syn is not None and cur is not None and syn != cur:
+                out.append((run, bool(cur)))
+                run = []
+            if syn is not None:
+                cur = syn
+            run.append(it)
+        if run:
+            out.append((run, bool(cur)))
+    return out
 
 
 def make_module(target, pie):
@@ -310,9 +368,9 @@ def run(target, items, pie, allow_undef, unreachable=False, suffix="_sfx1", cut=
     res, err = None, None
     try:
         asm = As.Assembler(m, temp_symbol_suffix=suffix, allow_undef_symbols=allow_undef, trivially_unreachable=unreachable)
-        for part in ([items] if not cut else [items[:cut], items[cut:]]):
+        for part, intel in calls_of(tg, items, cut):
             log.events.append("chunk")
-            asm.assemble("\n".join(it["line"] for it in part) + "\n", As.X86Syntax.INTEL if tg["intel"] else As.X86Syntax.ATT)
+            asm.assemble("\n".join(it["line"] for it in part) + "\n", As.X86Syntax.INTEL if intel else As.X86Syntax.ATT)
         res = asm.finalize()
     except Exception as e:   # noqa
         err = type(e).__name__
